@@ -50,7 +50,7 @@ Print Assumptions split.
 (* Inline images: BI dict ID data EI is read back as the %image% operator with the same
    dictionary (normal form, writer's key order) and the same data, under the guard wf_image_full:
    /W, /H acceptable; keys regular bytes without '#'; values any operands of the domain nested at
-   most 10 deep and without empty arrays; no ASCII filter; and the data can be framed - /L is
+   most 10 deep; no ASCII filter; and the data can be framed - /L is
    present and equals the data length, or the data contains no EOL "EI" delimiter. *)
 Theorem inline_rt : forall L d data,
   limits_ok L = true -> wf_image_full L d data = true ->
@@ -79,15 +79,19 @@ Theorem inline_rt_refuted : exists d data,
 Proof. exact inline_rt_refuted_stmt. Qed.
 Print Assumptions inline_rt_refuted.
 
-(* the two other inline-image findings, as instances *)
+(* the two former inline-image defects (fixed), as instances: an empty array inside the
+   dictionary is read back as an empty array, and ASCII85 data that starts with "%" or is empty
+   is read back *)
 Example inline_empty_array_instance :
   cscan cstd_limits (op_format (image_op [(k_W, OInt 1); (k_H, OInt 1); ([68], OArr [])] [120]))
-  = Some [image_op [([68], ONilArr); (k_H, OInt 1); (k_W, OInt 1)] [120]].
+  = Some [image_op [([68], OArr []); (k_H, OInt 1); (k_W, OInt 1)] [120]].
 Proof. vm_compute. reflexivity. Qed.
 Example inline_ascii_instance :
   cscan cstd_limits (op_format (image_op [(k_W, OInt 1); (k_H, OInt 1); (k_F, OName [65; 56; 53])] [37; 97; 126; 62]))
-  = Some [].
-Proof. vm_compute. reflexivity. Qed.
+  = Some [image_op [(k_F, OName [65; 56; 53]); (k_H, OInt 1); (k_W, OInt 1)] [37; 97; 126; 62]] /\
+  cscan cstd_limits (op_format (image_op [(k_W, OInt 1); (k_H, OInt 1); (k_F, OName [65; 56; 53])] []))
+  = Some [image_op [(k_F, OName [65; 56; 53]); (k_H, OInt 1); (k_W, OInt 1)] []].
+Proof. split; vm_compute; reflexivity. Qed.
 
 (* The scanner's literal result is the canonical form of C01 (a nil entry is absent, a nil
    array is null, dictionaries are finite maps): operands are equal as the property reads it. *)
